@@ -57,15 +57,18 @@ class Report:
         self.extra: Dict[str, Any] = {}
         self.deferred_errors: List[str] = []
         self.follows: set = set()
+        self.definite_rules: set = set()
 
     # ----------------------------------------------------------- recording
-    def rule(self, rule_id: str, description: str, floor: int = 1, follows_calls: bool = False) -> str:
+    def rule(self, rule_id: str, description: str, floor: int = 1, follows_calls: bool = False, definite: bool = False) -> str:
         """follows_calls: the rule interprets the functions its anchor calls (norm / symexec inlining), so a helper introduced by a refactoring is looked into;
         for the other rules a finding in a function that newly delegates to a helper is withheld (see sa/delegation.py)."""
         if rule_id not in self.rules:
             self.rules[rule_id] = RuleStats(description, floor)
         if follows_calls:
             self.follows.add(rule_id)
+        if definite:
+            self.definite_rules.add(rule_id)  # every finding of this rule names a construct that is positively wrong (a forbidden import, a new writer, stored state)
         return rule_id
 
     def _touch(self, rule: str) -> RuleStats:
@@ -88,6 +91,10 @@ class Report:
         st.instances += 1
         st.violated += 1
         self.distinct.add((rule, construct))
+        if rule in self.definite_rules:
+            extra = dict(extra, definite=True)
+        if rule in self.follows:
+            extra = dict(extra, follows=True)  # travels with the finding when another report restates (absorbs) it
         self.findings.append(Finding(rule, module, qualname, construct, message, where, extra))
 
     def check(self, cond: bool, rule: str, module: str, qualname: str, construct: str, message: str, where: str = "", detail: str = "", definite: bool = False) -> bool:
@@ -108,7 +115,7 @@ class Report:
         n_ok = sum(st.discharged for rid, st in sub.rules.items() if rid in only_rules)
         for f in sub.findings:
             if f.rule in only_rules:
-                self.violation(rule, f.module, f.qualname, f"[{f.rule}] {f.construct}", f.message, f.where)
+                self.violation(rule, f.module, f.qualname, f"[{f.rule}] {f.construct}", f.message, f.where, **{k: v for k, v in f.extra.items() if k in ("definite", "follows")})
         if n_ok:
             st = self._touch(rule)
             st.instances += n_ok
@@ -171,7 +178,7 @@ class Report:
                 if f.extra.get("definite"):
                     kept.append(f)  # a positively wrong construct was identified: where other code moved to does not matter
                     continue
-                helpers = delegation.new_helpers(load_package(), f.module, f.qualname, touched if f.rule in self.follows else set())
+                helpers = delegation.new_helpers(load_package(), f.module, f.qualname, touched if (f.rule in self.follows or f.extra.get("follows")) else set())
                 if helpers:
                     withheld.append(f)
                     self.defer_error(f"{f.where or f.module}: rule {f.rule} expected its construct in {f.qualname}, which now delegates to {helpers[:4]} (not followed by this rule): not decided for this shape [{f.message[:160]}]")
@@ -217,7 +224,7 @@ class Report:
                         "property": self.pid,
                         "repo": str(load_package().root),
                         "violations": [
-                            {"rule": f.rule, "module": f.module, "qualname": f.qualname, "construct": f.construct, "message": f.message, "where": f.where, **{k: v for k, v in f.extra.items() if k != "definite"}}
+                            {"rule": f.rule, "module": f.module, "qualname": f.qualname, "construct": f.construct, "message": f.message, "where": f.where, **{k: v for k, v in f.extra.items() if k not in ("definite", "follows")}}
                             for f in new
                         ],
                     },
